@@ -110,7 +110,7 @@ Judge(e) ==
     (* programs that loop - legitimately, or because of a deviation - small).  Every recorded step before it    *)
     (* was judged, and a deviation that makes a program run on is judged at its step; the rest of the run is    *)
     (* simply not judged (the drivers count such runs).                                                         *)
-    [] e.event \in {"Begin", "End", "Step", "Fault", "Enter", "Exit", "StepBound"} -> <<>>
+    [] e.event \in {"Begin", "End", "Step", "Fault", "Enter", "Exit", "StepBound", "Sync"} -> <<>>
     [] OTHER -> <<"Proj.unknown-event">>
 
 TraceInit == /\ code = <<>> /\ data = <<>> /\ st = InitState /\ status = "run" /\ jumped = FALSE /\ ret = <<>>
@@ -138,6 +138,12 @@ TraceNext ==
                   /\ UNCHANGED dead
              [] e.event = "Step" /\ e.depth = CurDepth /\ live ->
                   /\ st' = [pc |-> e.npc, stack |-> e.stack, mem |-> ObsMem(e), rd |-> ObsRd(e)]
+                  /\ live' = (e.npc >= 0)
+                  /\ UNCHANGED <<code, data, fstack, dead>>
+             (* Sync: a long prefix of the program (e.g. filling the stack) was not recorded step by step; the   *)
+             (* complete observed state after it is bound here and the steps that follow are judged from it       *)
+             [] e.event = "Sync" /\ CurDepth = 1 ->
+                  /\ st' = [pc |-> e.npc, stack |-> e.stack, mem |-> e.mem, rd |-> e.rd]
                   /\ live' = (e.npc >= 0)
                   /\ UNCHANGED <<code, data, fstack, dead>>
              [] e.event = "StepBound" ->
